@@ -166,7 +166,7 @@ def clamp(line, o):
 
 def indent(line):
     k = 0
-    while k < len(line) and line[k] in ' \t':
+    while k < len(line) and line[k] in ' \t\v\f\r':     # C isspace (lbuf_indents); the text never holds \n inside a line
         k += 1
     if k == len(line):
         k += 1              # the newline is white space too; clamped afterwards
@@ -191,7 +191,9 @@ class Spec:
             src = render_py(toks)
             if notbol:
                 src = render_py([t if t[0] != 'bol' else ['cls', [1, [['\x00', '\U0010ffff']]], 0] for t in toks])
-            self.cache[key] = re.compile(src, re.I if self.ic else 0)
+            # ignorecase of the editor folds A-Z / a-z only (rstr.c tolower in the C locale, regex.c c < 128):
+            # re.ASCII keeps re.IGNORECASE from identifying non-ASCII letters (é/É, ı/i, K/k)
+            self.cache[key] = re.compile(src, (re.I | re.A) if self.ic else 0)
         return self.cache[key]
 
     def find(self, line, pos):
@@ -264,7 +266,7 @@ class Spec:
             if toks:
                 self.kw = toks
             self.dir = 1 if kind == '/' else -1
-            rs = rest.lstrip(' ')
+            rs = rest.lstrip(' \t')
             self.soset = rs != ''
             m = re.match(r'[+-]?[0-9]*', rs)
             self.so = int(m.group(0)) if m and re.search('[0-9]', m.group(0)) else 0
@@ -294,13 +296,17 @@ class Spec:
         return (True, cr, clamp(self.lines[cr], co))
 
 
-def expected(case, hide=False):
+def expected(case, hide=False, offs=None):
     sp = Spec(case['text'], case['ic'], hide)
     r, o = case['row'], case['col']
     oks = []
+    case_offs = []
     for cmd in case['cmds']:
         ok, r, o = sp.command(cmd, r, o)
         oks.append(ok)
+        case_offs.append((1 if sp.soset else 0, sp.so))
+    if offs is not None:
+        offs.extend(case_offs)
     return (r, o), oks
 
 
@@ -394,6 +400,129 @@ def lctx_explains(case, got):
     return expected(case, hide=True)[0] == got
 
 
+# ---------------------------------------------------------------------------------------------
+# bit-5 twins: byte strings that differ from a literal only in bit 5 of some bytes.  Bit 5 is the case bit of
+# ASCII letters and of nothing else, so for every other character the twin is a NON-occurrence that a sloppy
+# case-insensitive comparison takes for one ('#'/^C, '-'/CR, digits/^P..^Y, '@'/'`', UTF-8 continuation bytes
+# 80..9f/a0..bf, lead bytes c0..df/e0..ff).  Twins are put in front of the real occurrence.
+
+import unicodedata
+
+SYMS = list('#-,019@`~_;=!"\'&:<>/') + ['é', 'É', 'ı', 'đ', '中', '不', 'ö', 'ñ', 'П']
+TWIN_WORDS = ['a#b', 'x-y', '1', 'a1', '@', '~x', 'a_b', ';', 'é', 'ıx', '中', 'b,', 'aП', '9=9', "a'b", 'ö-', 'xı', '"a"', 'B!']
+_BAD = set('\x00\n\x1a%\x05')
+
+
+def _twin_ok(t):
+    for ch in t:
+        if ch in _BAD:
+            return False
+        if ord(ch) > 127 and (not ch.isprintable() or unicodedata.combining(ch) or unicodedata.category(ch) in ('Mn', 'Me', 'Cf')):
+            return False
+    return True
+
+
+def byte_twins(ch):
+    """strings whose UTF-8 bytes are those of ch with bit 5 flipped in one or more bytes (padded with 80 when
+    the flipped lead byte announces a longer sequence); valid UTF-8 only.  An ASCII letter has none (its twin is
+    the other case, a real occurrence under ignorecase)."""
+    if ch.isascii() and ch.isalpha():
+        return []
+    b = ch.encode('utf-8')
+    out = []
+    for mask in range(1, 1 << len(b)):
+        t = bytes(x ^ (0x20 if (mask >> i) & 1 else 0) for i, x in enumerate(b))
+        for pad in (b'', b'\x80', b'\x80\x80'):
+            try:
+                u = (t + pad).decode('utf-8')
+            except UnicodeDecodeError:
+                continue
+            if _twin_ok(u) and u not in out:
+                out.append(u)
+            break
+    return out
+
+
+def twin_words(w):
+    """w with one, and with every, twin-able character replaced by a twin (letters swap case along with it)"""
+    out = []
+    idx = [i for i, ch in enumerate(w) if byte_twins(ch)]
+    for i in idx:
+        for t in byte_twins(w[i]):
+            out.append(w[:i] + t + w[i + 1:])
+    if len(idx) > 1:
+        out.append(''.join(byte_twins(ch)[0] if byte_twins(ch) else ch for ch in w))
+    out += [x.swapcase() for x in out if x.swapcase() != x and any(c.isascii() and c.isalpha() for c in x)][:1]
+    res = []
+    for x in out:
+        if x != w and x not in res:
+            res.append(x)
+    return res
+
+
+def twin_texts(w):
+    """(text with real occurrences behind twins, text with twins only)"""
+    tw = twin_words(w)
+    t0, t1, t2 = tw[0], tw[1 % len(tw)], tw[-1]
+    a = ['s', t0 + ' ' + w + ' ' + t1, t2 + w.swapcase(), t1, w]
+    b = ['s', t0 + ' ' + t1, t2]
+    return a, b
+
+
+def gen_twin_case(rng):
+    """random: a literal of 1-3 characters with at least one non-letter, optionally anchored; lines made of the
+    literal, its twins, its case variants and noise"""
+    while True:
+        w = ''.join(rng.choice(SYMS + ['a', 'b', 'A', 'x']) for _ in range(rng.choice([1, 2, 2, 3])))
+        if twin_words(w):
+            break
+    tw = twin_words(w)
+    pieces = [w, w.swapcase(), w.upper()] + tw + tw
+    lines = []
+    for i in range(rng.choice([1, 2, 3, 4])):
+        n = rng.choice([0, 1, 2, 3, 4])
+        ln = ''
+        for j in range(n):
+            ln += rng.choice(pieces) if rng.chance(3, 4) else rng.choice(SYMS + ['a', ' '])
+            if rng.chance(1, 2):
+                ln += ' '
+        lines.append(ln)
+    if rng.chance(3, 4):
+        lines[rng.below(len(lines))] += rng.choice(tw) + rng.choice(['', ' ']) + w       # a twin right before an occurrence
+    toks = L(w)
+    t = rng.below(12)
+    if t == 0:
+        toks = [B_] + toks
+    elif t == 1:
+        toks = toks + [E_]
+    elif t == 2:
+        toks = [['wbeg', 0, 0]] + toks + [['wend', 0, 0]]
+    elif t == 3:
+        toks = [['wbeg', 0, 0]] + toks
+    return lines, toks
+
+
+# ---------------------------------------------------------------------------------------------
+# the remembered line offset: /pat/+N and ?pat?-N FOLLOWED by ^A, n, N, plain and empty patterns in one session
+
+OFF_TEXTS = [
+    (['ab cd', 'cd ef', '  cd', 'ij cd', 'kl'], ['cd', 'ef']),
+    (['x', '', 'foo bar', '\tbar foo', 'foo', '  ', 'bar'], ['foo', 'bar']),
+    (['é中 a', ' a é中', 'a', '   é中 b', 'b a'], ['a', 'é中']),
+]
+OFF_RESTS = ['1', '+1', '-1', '2', '-2', '+0', '-', ' 1', 'x', '+3', '-4', '+']
+
+
+def off_shapes(kind, toks, rest, other):
+    """command sequences that start with a / or ? carrying a line offset"""
+    p = [kind, toks, 1, rest]
+    A, A2, n, N, n2 = ['A', None, 1, ''], ['A', None, 2, ''], ['n', None, 1, ''], ['N', None, 1, ''], ['n', None, 2, '']
+    plain = [kind, other, 1, '']
+    again = ['/', None, 1, rest]                 # empty pattern + offset: the previous pattern (after ^A: the word) with the offset
+    return [[p], [p, A], [p, A, n], [p, A, N], [p, A2], [p, n], [p, N], [p, n2, A], [p, n, A, n], [p, N, A], [p, plain, A],
+            [p, plain, n], [p, A, again], [p, A, again, A], [plain, A, n], [p, A, A, N]]
+
+
 def cases(ctx):
     rng = ctx.rng
     out = []
@@ -417,9 +546,15 @@ def cases(ctx):
         n = rng.choice([1, 2, 2, 3, 4])
         have = False
         havepat = False
+        offmode = rng.chance(1, 3)               # sessions in which line offsets are common and ^A follows them
+        if offmode:
+            n += 1
         for j in range(n):
             t = rng.below(10)
             cnt = rng.choice([1, 1, 1, 2, 2, 3, 4])
+            if offmode and have:
+                t = rng.choice([0, 4, 5, 7, 9, 9, 9])
+                cnt = rng.choice([1, 1, 1, 2])
             if not have or t < 4:
                 toks = gen_tokens(rng) if rng.chance(2, 3) else rng.choice(FIXED_PATTERNS + ALT_PATTERNS)
                 if rng.chance(1, 10):
@@ -428,7 +563,9 @@ def cases(ctx):
                     toks = None                # empty pattern: the last one again
                 else:
                     havepat = True
-                rest = rng.choice(['+1', '-1', '1', ' 2', '+0', '-', 'x']) if rng.chance(1, 10) else ''
+                rest = rng.choice(['+1', '-1', '1', ' 2', '+0', '-', 'x']) if rng.chance(1, 2 if offmode else 10) else ''
+                if offmode and toks and rng.chance(1, 2):
+                    toks = L(rng.choice([x for x in re.split('[^a-zA-Zé中_]+', ' '.join(text)) if x] or ['a']))    # a word of the text
                 cmds.append([rng.choice('/?'), toks, cnt, rest])
                 have = True
             elif t < 7:
@@ -450,6 +587,42 @@ def cases(ctx):
                                 if ctx.quick and not rng.chance(1, 8):
                                     continue
                                 out.append({'text': text, 'ic': True, 'row': r, 'col': c, 'cmds': [[kind, toks, cnt, '']] + more, 'src': 'alt'})
+    # bit-5 twins in front of the occurrence: every cursor position, / and ?, ignorecase on and off, then n / N
+    for wi, w in enumerate(TWIN_WORDS):
+        ta, tb = twin_texts(w)
+        pats = [L(w), [B_] + L(w), L(w) + [E_], [['wbeg', 0, 0]] + L(w) + [['wend', 0, 0]]]
+        for text in (ta, tb):
+            for r, line in enumerate(text):
+                for c in range(max(1, len(line))):
+                    for pi, toks in enumerate(pats):
+                        for kind in '/?':
+                            for ic in (True, False):
+                                for more in ([], [['n', None, 1, '']], [['N', None, 1, '']]):
+                                    if ctx.quick and not rng.chance(1, 7 if pi == 0 else 40):
+                                        continue
+                                    if not ctx.quick and pi > 0 and not rng.chance(1, 4):
+                                        continue
+                                    out.append({'text': text, 'ic': ic, 'row': r, 'col': c, 'cmds': [[kind, toks, 1, '']] + more, 'src': 'twin'})
+    for i in range(300 if ctx.quick else 5000):
+        text, toks = gen_twin_case(rng)
+        r = rng.below(len(text))
+        c = rng.below(max(1, len(text[r])))
+        cmds = [[rng.choice('/?'), toks, rng.choice([1, 1, 1, 2]), '']]
+        for j in range(rng.choice([0, 0, 1, 2])):
+            cmds.append([rng.choice('nN'), None, rng.choice([1, 1, 2]), ''])
+        out.append({'text': text, 'ic': rng.chance(2, 3), 'row': r, 'col': c, 'cmds': cmds, 'src': 'twin-random'})
+    # line offsets that outlive their search: /pat/off or ?pat?off, then ^A / n / N / plain / empty patterns
+    for text, words in OFF_TEXTS:
+        for wi, w in enumerate(words):
+            other = L(words[1 - wi])
+            for r, line in enumerate(text):
+                for c in range(max(1, len(line))):
+                    for kind in '/?':
+                        for rest in OFF_RESTS:
+                            for cmds in off_shapes(kind, L(w), rest, other):
+                                if not rng.chance(1, 60 if ctx.quick else 6):
+                                    continue
+                                out.append({'text': text, 'ic': True, 'row': r, 'col': c, 'cmds': cmds, 'src': 'offset'})
     # ^A from every position
     for text in texts[:8]:
         for r, line in enumerate(text):
@@ -507,7 +680,12 @@ def run(ctx):
         res.evaluations += 1
         res.count('src ' + case.get('src', 'replay').split(':')[0])
         err, pos, r = impl[i]
-        want, oks = expected(case)
+        soffs = []
+        want, oks = expected(case, offs=soffs)
+        if any(so[0] for so in soffs[:-1]):
+            res.count('sessions in which a command runs with a line offset pending from an earlier one')
+            if any(cmd[0] == 'A' for cmd, so in zip(case['cmds'][1:], soffs[:-1]) if so[0]):
+                res.count('^A typed while a line offset is pending')
         if want != (case['row'], case['col']) or not all(oks):
             res.nontriv(json.dumps([case['text'], case['row'], case['col'], case['cmds']]))
         for cmd in case['cmds']:
@@ -521,11 +699,17 @@ def run(ctx):
             if mout[i] == 'unsupported':
                 res.count('pattern outside the reference matcher (oracle only)')
             else:
-                last = mout[i].split(';')[-1].split()
+                per = [x.split() for x in mout[i].split(';')]
+                last = per[-1]
                 mpos = (int(last[1]), int(last[2]))
                 if mpos != pos:
                     res.disagree({'what': 'model and implementation differ (final cursor)', 'input': case, 'keys': keys_of(case).decode('utf-8', 'replace'),
                                   'implementation': pos, 'model': mpos})
+                # the remembered line offset after every command: the model's state against the property's reading
+                moffs = [(int(x[3]), int(x[4])) for x in per if len(x) >= 5]
+                if moffs != soffs:
+                    res.disagree({'what': 'model and specification differ on the remembered line offset (soset, so) after each command',
+                                  'input': case, 'model': moffs, 'specification': soffs})
         # the property
         if err is not None or pos != want:
             if err is None and lctx_explains(case, pos):
